@@ -5,6 +5,7 @@ import (
 
 	cose "github.com/veraison/go-cose"
 
+	"verif/refcbor"
 	"verif/refcose"
 )
 
@@ -48,6 +49,14 @@ func scenarioC09(r *Run) {
 				cur, faulted = out, true
 				r.Fired(k)
 			}
+		} else if t.Bool(1, 5, "c09.fault.outertag") {
+			// a peer that wraps the message once more (CWT tag 61, self-described
+			// CBOR 55799, the message's own tag twice, ...): if the decoder takes
+			// it, the relay must still reproduce it
+			tags := []uint64{61, 55799, 18, 98, 17, 24, 0}
+			tg := refcbor.Encode(refcbor.Tag(tags[t.Choose(len(tags), "c09.outertag")], refcbor.Int(0)))
+			cur, faulted = append(append([]byte{}, tg[:len(tg)-1]...), cur...), true
+			r.Fired("outertag")
 		} else {
 			kinds := []string{"rewidth", "keyreorder", "unprot-edit"}
 			if out, k, ok := StructFault(t, cur, kinds[t.Choose(3, "c09.fault.kind")]); ok {
